@@ -2339,7 +2339,14 @@ where
                         .take(samples_all)
                         .collect()
                 } else {
-                    data.to_vec()
+                    // leave out anything after the last frame
+                    // (such as the padding byte of an odd-sized value)
+                    let expected_len = (rows as usize)
+                        * (cols as usize)
+                        * (samples_per_pixel as usize)
+                        * (bits_allocated.div_ceil(8) as usize)
+                        * (number_of_frames as usize);
+                    data[..expected_len.min(data.len())].to_vec()
                 }
             }
             DicomValue::Sequence(..) => InvalidPixelDataSnafu.fail()?,
